@@ -70,3 +70,18 @@ func VerifTracked(rm *RegistrationManager, ip net.IP) (tracked, valid int) {
 
 // VerifSetRegistrationAddr sets the registrant address of a registration built by the driver.
 func VerifSetRegistrationAddr(reg *DecoyRegistration, ip net.IP) { reg.registrationAddr = ip }
+
+// VerifRegState reports what the table holds under the registration's phantom address and transport identifier - whichever
+// object is filed there: "gone" (nothing), "tracked" (not validated) or "valid".
+func VerifRegState(rm *RegistrationManager, reg *DecoyRegistration) string {
+	rm.registeredDecoys.m.RLock()
+	defer rm.registeredDecoys.m.RUnlock()
+	d := rm.registeredDecoys.registrationExists(reg)
+	if d == nil {
+		return "gone"
+	}
+	if d.Valid {
+		return "valid"
+	}
+	return "tracked"
+}
